@@ -26,6 +26,7 @@
   deadlock; the harness keeps replaying that schedule on the implementation (c11.py sample).
 -/
 import DateutilVerif.Proofs.CacheGlobal
+import DateutilVerif.Model.CacheNested
 
 namespace C11
 open Cache Queries
@@ -188,5 +189,28 @@ example : ((runOld (init src11 [.iterAll, .iterAll]) deadlockSchedule).sh.lock,
 example : deadlocked step (run (init src11 [.iterAll, .iterAll]) deadlockSchedule) = false ∧
           (run (init src11 [.iterAll, .iterAll]) deadlockSchedule).its.map (fun it => (it.pc, it.yielded.length))
             = [(.done, 11), (.done, 11)] := by decide +kernel
+
+/-! ### nested cached objects: one lock per object vs one lock for all
+
+`Nested` (Model/CacheNested.lean) is the machine of cached sets whose member rules are cached too:
+line 138 of a set — executed with the SET's lock held — pulls from the member's `_iter_cached`,
+which acquires the MEMBER's lock.  With a lock per object the order is parent → child only.  With
+ONE non-re-entrant lock for all objects (`shared := true`: a class-level `_cache_lock`) a single
+thread listing a cached set over a cached rule blocks on itself at the member's `acquire()`. -/
+
+def nestedOwn := Nested.init [[0, 10, 20]] [([.cached 0], [])] [(1, .iterAll)] false
+def nestedShared := Nested.init [[0, 10, 20]] [([.cached 0], [])] [(1, .iterAll)] true
+
+-- one lock for all: a reachable single-thread deadlock …
+example : ∃ sched, Nested.deadlocked (Nested.run nestedShared.1 nestedShared.2 sched) nestedShared.2 = true :=
+  ⟨List.replicate 40 0, by decide +kernel⟩
+-- … stuck on line 132 of the member's iterator while the set's thread sits on line 138 holding the lock
+example : (let ns := Nested.run nestedShared.1 nestedShared.2 (List.replicate 40 0)
+           (ns.sets.map (fun S => (Nested.pcOf S.st 0, S.st.sh.lock)), ns.members.map (fun M => (Nested.pcOf M 0, M.sh.lock))))
+          = ([(.l138, some 0)], [(.l132, none)]) := by decide +kernel
+-- own locks: the same schedule (any long enough one) finishes with the merged sequence
+example : (let ns := Nested.run nestedOwn.1 nestedOwn.2 (List.replicate 150 0)
+           (Nested.finished ns (1, 0), ns.sets.map (fun S => S.st.sh.cache), Nested.deadlocked ns nestedOwn.2))
+          = (true, [[0, 10, 20]], false) := by decide +kernel
 
 end C11
